@@ -640,6 +640,9 @@ func runC19(tier string, part, parts int) procxResult {
 	if part == 0 {
 		runC19Extra(&res)
 	}
+	if part == 1%parts {
+		runC19More(&res)
+	}
 	res.Samples = append(res.Samples, fmt.Sprintf("%d task output specs, e.g. %s; task names %q; every job runs twice concurrently", len(specs), descCmds(specs[len(specs)-1]), c19TaskNames))
 	return res
 }
@@ -709,6 +712,72 @@ func runC19Extra(res *procxResult) {
 		}
 		if _, err := pw.output(jb.ID, "a", "stdout"); err == nil {
 			res.add("removed-job-logs-remain", "the logs of the job removed by retention are still readable")
+		}
+		pw.close()
+	}
+}
+
+// runC19More: commands that reopen their standard streams by name, and logs of a job after the definitions changed
+func runC19More(res *procxResult) {
+	// (3) a command that reopens its stdout / stderr by name (> /dev/stdout, --log-file /dev/stderr, tee /dev/stderr):
+	// what earlier commands of the task wrote stays, what it writes is appended
+	{
+		sc := map[string][]string{"a": {
+			"printf 'first;'", "printf 'e-first;' >&2",
+			"sh -c 'printf second\\; > /dev/stdout'", "sh -c 'printf e-second\\; > /dev/stderr'",
+			"printf 'third'", "printf 'e-third' >&2",
+		}}
+		pw := newProcWorld(mkDefs(map[string]PipeCfg{"o": {Conc: 1, QL: -1, Graph: graphOne, Script: sc}}), 0)
+		j, _ := pw.r.ScheduleAsync("o", prunner.ScheduleOpts{})
+		if v, ok := pw.wait(j.ID, 60*time.Second); !ok {
+			res.inconclusive("reopened-streams job did not finish within 60s")
+		} else if v.LastError != "" {
+			res.add("reopened-streams-job-fails", "a task whose commands reopen /dev/stdout and /dev/stderr fails: "+v.LastError)
+		} else {
+			_, body := apiGet(pw.h, "GET", "/job/logs?id="+j.ID.String()+"&task=a", "")
+			api, _ := decodeJSON(body).(map[string]interface{})
+			for st, want := range map[string]string{"stdout": "first;second;third", "stderr": "e-first;e-second;e-third"} {
+				res.Cases++
+				res.Distinct++
+				got, _ := pw.output(j.ID, "a", st)
+				if string(got) != want {
+					res.add("reopened-stream-output:store", fmt.Sprintf("commands of one task write to %s, the second one through /dev/%s: the log store returns %q, want %q", st, st, got, want))
+				}
+				if as, _ := api[st].(string); as != want {
+					res.add("reopened-stream-output:api", fmt.Sprintf("commands of one task write to %s, the second one through /dev/%s: the log API returns %q, want %q", st, st, as, want))
+				}
+			}
+		}
+		pw.close()
+	}
+	// (4) the logs of a finished job stay readable, under the task names the job had, after a reload that renames /
+	// removes / adds tasks; a task the job never had stays refused
+	{
+		before := PipeCfg{Conc: 1, QL: -1, Graph: map[string][]string{"build": nil, "test": {"build"}},
+			Script: map[string][]string{"build": {"printf 'built'"}, "test": {"printf 'tested'"}}}
+		after := PipeCfg{Conc: 1, QL: -1, Graph: map[string][]string{"compile": nil, "deploy": {"compile"}},
+			Script: map[string][]string{"compile": {"printf 'compiled'"}, "deploy": {"printf 'deployed'"}}}
+		pw := newProcWorld(mkDefs(map[string]PipeCfg{"l": before}), 0)
+		j, _ := pw.r.ScheduleAsync("l", prunner.ScheduleOpts{})
+		if _, ok := pw.wait(j.ID, 60*time.Second); !ok {
+			res.inconclusive("logs-after-reload job did not finish within 60s")
+		} else {
+			pw.r.ReplaceDefinitions(mkDefs(map[string]PipeCfg{"l": after}))
+			for task, want := range map[string]string{"build": "built", "test": "tested"} {
+				res.Cases++
+				res.Distinct++
+				code, body := apiGet(pw.h, "GET", "/job/logs?id="+j.ID.String()+"&task="+task, "")
+				api, _ := decodeJSON(body).(map[string]interface{})
+				if as, _ := api["stdout"].(string); code != 200 || as != want {
+					res.add("logs-after-reload", fmt.Sprintf("after a reload that renames the tasks, the log request for task %s of the job that ran before answers %d %q, want 200 %q", task, code, as, want))
+				}
+			}
+			for _, task := range []string{"compile", "deploy"} {
+				res.Cases++
+				if code, _ := apiGet(pw.h, "GET", "/job/logs?id="+j.ID.String()+"&task="+task, ""); code != 404 {
+					res.add("logs-after-reload:unknown-task-not-refused", fmt.Sprintf("after the reload a log request for task %s, which the job never had, answers %d instead of 404", task, code))
+				}
+			}
 		}
 		pw.close()
 	}
